@@ -243,8 +243,21 @@ def gen_simul(rng: random.Random):
         nargs += 1
         return nargs
 
-    kind = rng.choice(["connect", "connect", "sim"])
+    kind = rng.choice(["connect", "connect", "sim", "sim", "connect", "chainc"])
     d = {"kind": kind, "targets": [], "callers": [], "rev": rng.random() < 0.6, "meths": [], "pairs": []}
+    if kind == "chainc":
+        # A -> Connect 1 -> B -> Connect 2 -> C; A and C may both call one nonexclusive target
+        d["rev"] = False
+        d["meths"] = [{"ready": 0}] * 4
+        d["pairs"] = [[1, 2], [3, 4]]
+        d["shared"] = rng.choice(["none", "nonexcl", "nonexcl"])
+        if d["shared"] != "none":
+            d["targets"].append({"ready": inp() if rng.random() < 0.7 else 0})
+        for meth, meth2 in ((1, 0), (2, 3), (4, 0)):
+            d["callers"].append({"ready": inp() if rng.random() < 0.8 else 0, "meth": meth, "meth2": meth2,
+                                 "extra": 1 if (d["shared"] != "none" and meth in (1, 4)) else 0, "arg": arg(), "hops": []})
+        d["nin"], d["nargs"] = nin, nargs
+        return d
     if kind == "connect":
         d["meths"] = [{"ready": 0}, {"ready": 0}]       # 1 = write, 2 = read
         d["pairs"] = [[1, 2]]
@@ -304,10 +317,29 @@ def build_simul(d):
             for k, t in enumerate(d["targets"], start=1):
                 meth = Method(name=f"tgt{k}")
                 H.tm.append(meth)
+                tkw = {"nonexclusive": True} if d.get("shared") == "nonexcl" else {}
 
-                @def_method(m, meth, ready=sig(t["ready"]))
+                @def_method(m, meth, ready=sig(t["ready"]), **tkw)
                 def _():
                     pass
+            if d["kind"] == "chainc":
+                m.submodules.conn1 = conn1 = Connect([("d", 3)], [])
+                m.submodules.conn2 = conn2 = Connect([("d", 3)], [])
+                H.meth += [conn1.write, conn1.read, conn2.write, conn2.read]
+                for k, c in enumerate(d["callers"]):
+                    with Transaction(name=f"c{k}").body(m, ready=sig(c["ready"])) as t:
+                        if c["meth"] == 1:
+                            conn1.write(m, d=H.arg[c["arg"]])
+                        elif c["meth"] == 2:
+                            v = conn1.read(m).d
+                            conn2.write(m, d=v)
+                            m.d.top_comb += H.res[k].eq(v)
+                        else:
+                            m.d.top_comb += H.res[k].eq(conn2.read(m).d)
+                        if c["extra"]:
+                            H.tm[c["extra"]](m)
+                    H.trans.append(t)
+                return m
             if d["kind"] == "connect":
                 m.submodules.conn = conn = Connect([("d", 3)], [("r", 3)] if d["rev"] else [])
                 H.meth += [conn.write, conn.read]
